@@ -146,4 +146,19 @@ CHECKS = {
         "level_note": "A CPU-time budget without journal progress stands in for non-termination. Only 'returns' is asserted, not what is returned.",
         "assumptions": ["120 s of CPU without progress on inputs <= 30 MB means a hang"],
     },
+    "C07": {
+        "pkg": "c07",
+        "variants": [PLAIN, {"name": "forcegc", "env": {"GOGC": "1", "VERIF_FORCE_GC": "1"}, "shards": {"quick": 8, "thorough": 16}},
+                     {"name": "checkptr", "gcflags": "all=-d=checkptr", "shards": {"quick": 8, "thorough": 16}}],
+        "rule": ("rapid draws a destination type T (arrays/slices/structs over 27 element shapes of 1..64 bytes, or the C02 grammar), an initial value (one recipe instantiated three times), a document "
+                 "(type-directed: short/long arrays, missing members, null, duplicates; free; or truncated so that decoding fails after some stores) and the entry (Unmarshal, Decoder, chunked Decoder). T is laid "
+                 "out by reflect.StructOf inside struct{Pre [64]byte; V T; Mid [64]byte; W T; Post [64]byte} with 0xA5 canaries and only &V is passed. Oracle: canaries and the raw bytes of W unchanged and W still "
+                 "deeply equal to its initial value; V can be walked completely (every string byte, element, map entry) and survives forced GCs, success or not; on success V equals encoding/json's result from the "
+                 "same initial value. Variants: normal, GOGC=1 with forced GCs, and a -d=checkptr build. Non-trivial = valid document with >= 3 tokens, or a failing decode after a partial store; "
+                 "distinct by hash(type, doc, recipe, entry)."),
+        "technique": "property-based testing with memory canaries, sibling snapshots, well-formedness walks under forced GC and checkptr instrumentation; differential against encoding/json for the addressed part",
+        "level_text": "Randomised exploration of layouts x documents x initial values with byte-level invariants; exploration level.",
+        "level_note": "Stray writes are visible only if they land in the 64-byte canaries, the sibling value, or corrupt the value itself; reads past the private buffer are visible only through checkptr/crashes.",
+        "assumptions": ["reflect.StructOf lays V and W out like a compiled struct would"],
+    },
 }
